@@ -31,6 +31,18 @@ def showBytes (l : List Nat) : String :=
 
 def sortDedup (l : List Nat) : List Nat := (l.mergeSort (· ≤ ·)).eraseDups
 
+/-- nodegraph.rs `_hash` of a k-mer over ACGT: the smaller of the 2-bit encodings of the k-mer
+(`A=0, C=2, G=3, T=1`) and of its reverse complement (`A=1, C=3, G=2, T=0`, read backwards) -/
+def khash? (kmer : String) : Option Nat :=
+  let cs := kmer.toList
+  let fw (c : Char) : Option Nat := match c with | 'A' => some 0 | 'C' => some 2 | 'G' => some 3 | 'T' => some 1 | _ => none
+  let rc (c : Char) : Option Nat := match c with | 'A' => some 1 | 'C' => some 3 | 'G' => some 2 | 'T' => some 0 | _ => none
+  match cs.mapM fw, cs.reverse.mapM rc with
+  | some f, some r =>
+    if cs.isEmpty then none else
+    some (min (f.foldl (fun acc x => acc * 4 + x) 0) (r.foldl (fun acc x => acc * 4 + x) 0))
+  | _, _ => none
+
 def step (st : St) (line : String) : St × String :=
   let bad := (st, "bad-op")
   match words line with
@@ -48,6 +60,18 @@ def step (st : St) (line : String) : St × String :=
       | some g => let (g', isNew) := g.count h; (put st r g', s!"ok {b2s isNew} occ={g'.occupied}")
       | none => bad
     | _ => bad
+  | ["countk", r, kmer] =>
+    match nat? r, khash? kmer with
+    | some r, some h => match get st r with
+      | some g => let (g', isNew) := g.count h; (put st r g', s!"ok {b2s isNew} occ={g'.occupied}")
+      | none => bad
+    | _, _ => bad
+  | ["getk", r, kmer] =>
+    match nat? r, khash? kmer with
+    | some r, some h => match get st r with
+      | some g => (st, s!"ok {g.get h}")
+      | none => bad
+    | _, _ => bad
   | ["get", r, h] =>
     match nats? [r, h] with
     | some [r, h] => match get st r with
